@@ -8,7 +8,7 @@ EXTENDS TypeSoundCore, AstGen
 ASSUME TLCSet(1, SetToSeq({x \in WTUpTo(MaxNodes) : KeyCanonical(x.a)}))
 Cases == TLCGet(1)
 Rec == [q \in 1..Len(Cases) |->
-          [id |-> ToString(q), ctx |-> Ctx, ast |-> Cases[q].a, have |-> TRUE, script |-> Encode(Cases[q].a, Ctx),
+          [id |-> ToString(q), ctx |-> Ctx, ast |-> Cases[q].a, have |-> TRUE, dom |-> "wt", script |-> Encode(Cases[q].a, Ctx),
            ty |-> [b |-> Cases[q].t.b, fl |-> SetToSeq(Cases[q].t.fl)]]]
 NB == 64
 
